@@ -60,7 +60,8 @@ pub fn run_variants(prop: &str, tier: &str, variants: Vec<Variant>, rep: &mut Re
             "max_rng_draws_in_one_call": stats.max_draws_in_step,
             "wall_s": stats.wall_s,
         }));
-        for s in stats.samples.iter().take(2) {
+        // the deepest histories recorded
+        for s in stats.samples.iter().rev().take(2) {
             rep.sample(json!({"variant": v.spec.label, "history": s}));
         }
         for f in found.iter().take(40) {
